@@ -1,2 +1,217 @@
-(* C19 — stub: no theorems yet *)
-From Zap Require Import Base.Wire C19.Model C19.Proofs.
+(* C19 — Open, Config.Build and std-log redirection are all-or-nothing; URLs validated.
+   Only statements closed by [exact]; the proofs are in C19/{Registry,Open,Proofs}.v.
+   The model (C19/Model.v) follows writer.go, sink.go, config.go, encoder.go and
+   global.go of the FIXED tree; the pre-fix code is kept as [..._orig] and the full
+   statements are refuted for it below (the three defects repaired by the "fix:"
+   commits). *)
+From Coq Require Import List ZArith Bool.
+From Coq.Strings Require Import Byte.
+Import ListNotations.
+From Zap Require Import Base.Wire C19.Model C19.Registry C19.Open C19.Proofs.
+
+(* ---------------------------------------------------------------- Open *)
+(* For every registry, every list of paths and every outcome of every opener
+   (file opens, factories): either every path yielded a sink, nothing was closed,
+   every sink receives every write exactly once and closeAll closes every closable
+   sink exactly once — or some path failed, no writer is returned, and every sink
+   that had been opened is closed exactly once (os.Stdout/os.Stderr never) and was
+   never written to. *)
+Theorem C19_open_atomic : forall (r : sreg) (ps : list purl) (next : nat),
+  let o := open r ps next in
+  map skd (o_sinks o) = path_kinds r ps /\ NoDup (ids (o_sinks o)) /\
+  match o_writers o with
+  | Some ws =>
+      Forall (fun u => snd (new_sink r u) <> None) ps /\ length ws = length ps
+      /\ o_sinks o = ws /\ o_evs o = [] /\ o_nerr o = 0
+      /\ (forall n s, In s ws -> count (is_write (sid s)) (writes n ws) = n)
+      /\ (forall s, In s ws -> count (is_close (sid s)) (close_all ws) = if closable s then 1 else 0)
+  | None =>
+      Exists (fun u => snd (new_sink r u) = None) ps
+      /\ o_nerr o = length (filter (path_fails r) ps) /\ o_nerr o <> 0
+      /\ (forall s, In s (o_sinks o) -> count (is_close (sid s)) (o_evs o) = if closable s then 1 else 0)
+      /\ (forall s, count (is_write (sid s)) (o_evs o) = 0)
+  end.
+Proof. exact open_atomic. Qed.
+Print Assumptions C19_open_atomic.
+
+(* ---------------------------------------------------------------- Config.Build *)
+(* Over every encoder registry, sink registry and configuration (hence every early
+   return of Build and every failing subset/position of the output and error-output
+   paths): a logger is returned only with a Level, an encoder and all sinks of both
+   lists open and unclosed, the n entries reaching every output sink and the m
+   internal errors every error-output sink; otherwise every sink opened on the way
+   has been closed exactly once. *)
+Theorem C19_build_atomic : forall (er : ereg) (r : sreg) (cfg : bcfg),
+  let b := build er r cfg in
+  match b_ws b with
+  | Some (ws1, ws2) =>
+      b_cls b = BOk /\ c_level cfg = true
+      /\ (exists id, new_encoder er (c_timekey cfg) (c_enctime cfg) (c_encoding cfg) = EOk id)
+      /\ b_sinks b = ws1 ++ ws2 /\ b_evs b = [] /\ NoDup (ids (ws1 ++ ws2))
+      /\ map skd ws1 = path_kinds r (c_out cfg) /\ length ws1 = length (c_out cfg)
+      /\ map skd ws2 = path_kinds r (c_errp cfg) /\ length ws2 = length (c_errp cfg)
+      /\ (forall n m s, In s ws1 -> count (is_write (sid s)) (writes n ws1 ++ writes m ws2) = n)
+      /\ (forall n m s, In s ws2 -> count (is_write (sid s)) (writes n ws1 ++ writes m ws2) = m)
+  | None =>
+      b_cls b <> BOk /\ all_undone (b_sinks b) (b_evs b)
+  end.
+Proof. exact build_atomic. Qed.
+Print Assumptions C19_build_atomic.
+
+(* pre-fix Build (level checked after openSinks): Config{Encoding: "json", OutputPaths:
+   ["/ok"]} without a Level returns "missing Level" with sink 0 open and unclosed *)
+Theorem C19_build_orig_refuted : ~ build_atomic_stmt build_orig.
+Proof. exact build_atomic_orig_refuted. Qed.
+Print Assumptions C19_build_orig_refuted.
+Theorem C19_build_orig_leak :
+  let b := build_orig ereg0 sreg0 leak_cfg in
+  b_cls b = BLevel /\ b_ws b = None /\ b_sinks b = [mkS 0 KFile] /\ b_evs b = [].
+Proof. exact build_orig_leaks. Qed.
+Print Assumptions C19_build_orig_leak.
+
+(* ---------------------------------------------------------------- std-log redirection *)
+(* For every prior (flags, prefix, writer) and every level value: an error leaves the
+   standard logger exactly as it was; success (exactly the seven named levels) sets
+   flags 0, prefix "", the zap writer at that level, and the returned function
+   restores the prior flags and prefix (and os.Stderr, as documented) from any later
+   state.  RedirectStdLog is the instance l = InfoLevel. *)
+Theorem C19_redirect_atomic : forall (st : stdlog) (l : Z),
+  match redirect st l with
+  | (None, st') => named_level l = false /\ st' = st
+  | (Some saved, st') =>
+      named_level l = true /\ st' = mkL 0 [] (WZap l)
+      /\ forall st'', restore saved st'' = mkL (l_flags st) (l_prefix st) WStderr
+  end.
+Proof. exact redirect_atomic. Qed.
+Print Assumptions C19_redirect_atomic.
+Theorem C19_redirect_orig_refuted : ~ redirect_atomic_stmt redirect_orig.
+Proof. exact redirect_atomic_orig_refuted. Qed.
+Print Assumptions C19_redirect_orig_refuted.
+
+(* ---------------------------------------------------------------- file URLs *)
+(* A URL whose scheme is empty or "file" (any registry in which "file" is the built-in
+   factory): nothing is opened unless it has no user info, port, query or fragment and
+   an empty or "localhost" host; then exactly u.Path is opened ("stdout"/"stderr"
+   designate the process streams instead). *)
+Theorem C19_file_url : forall (r : sreg) (u : purl),
+  lookup r s_file = Some 0 -> u_abs u = false -> u_perr u = false ->
+  (u_scheme u = [] \/ u_scheme u = s_file) ->
+  (file_url_ok u = false -> new_sink r u = ([], None)) /\
+  (file_url_ok u = true -> is_std_path (u_path u) = true -> new_sink r u = ([], Some KStd)) /\
+  (file_url_ok u = true -> is_std_path (u_path u) = false ->
+     new_sink r u = ([CFile (u_path u)], if u_ok u then Some KFile else None)).
+Proof. exact file_url_thm. Qed.
+Print Assumptions C19_file_url.
+Theorem C19_file_url_ok : forall u,
+  file_url_ok u = true <->
+  u_user u = false /\ u_port u = [] /\ u_query u = [] /\ u_frag u = []
+  /\ (u_hostname u = [] \/ u_hostname u = s_localhost).
+Proof. exact file_url_ok_iff. Qed.
+Print Assumptions C19_file_url_ok.
+
+(* ---------------------------------------------------------------- registries *)
+(* RegisterSink, any registry, any name: never panics; succeeds iff the name is
+   non-empty, a valid RFC 3986 scheme (ASCII) and its lower-cased form is not yet
+   registered; a failure leaves the registry unchanged; a success adds exactly the
+   lower-cased name. *)
+Theorem C19_registry : forall (r : sreg) (name : bytes) (f : nat),
+  let '(c, r') := register r name f in
+  c <> RPanic /\
+  (name = [] -> c = RErrEmpty) /\
+  (name <> [] -> valid_scheme name = false -> c = RErrInvalid) /\
+  (name <> [] -> valid_scheme name = true -> lookup r (ascii_lower name) <> None -> c = RErrDup) /\
+  (c = ROk <-> reg_accepts r name) /\
+  (c <> ROk -> r' = r) /\
+  (c = ROk -> r' = r ++ [(ascii_lower name, f)]).
+Proof. exact register_spec. Qed.
+Print Assumptions C19_registry.
+(* schemes are matched case-insensitively: after a successful registration every
+   spelling equal to the name up to ASCII case finds the new factory (url.Parse
+   lower-cases the scheme it looks up), and no other key changes *)
+Theorem C19_registry_case_insensitive : forall r name f s,
+  reg_accepts r name -> ascii_lower s = ascii_lower name ->
+  lookup (snd (register r name f)) (ascii_lower s) = Some f.
+Proof. exact lookup_registered. Qed.
+Print Assumptions C19_registry_case_insensitive.
+Theorem C19_registry_frame : forall r name f k,
+  k <> ascii_lower name -> lookup (snd (register r name f)) k = lookup r k.
+Proof. exact lookup_other. Qed.
+Print Assumptions C19_registry_frame.
+(* after any sequence of registration attempts, a path resolves as the declarative
+   reading says: the first valid registered name equal to the written scheme up to
+   ASCII case, "file"/no scheme being the built-in file sink *)
+Theorem C19_resolution : forall (names : list (bytes * nat)) (u : purl),
+  ids_pos names -> wf_purl u = true ->
+  new_sink (reg_all sreg0 names) u = spec_path names u.
+Proof. intros names u H W. exact (new_sink_spec _ names u (Inv_case names) H W). Qed.
+Print Assumptions C19_resolution.
+(* an accepted name is a valid scheme, hence ASCII; false of the pre-fix code, which
+   lower-cased first: "\u212Aelvin" was accepted and registered as "kelvin" *)
+Theorem C19_registry_rejects_malformed : forall r name f,
+  fst (register r name f) = ROk -> valid_scheme name = true /\ forallb is_ascii name = true.
+Proof.
+  intros r name f H. pose proof (registry_rejects_malformed_fixed r name [] f H) as V.
+  exact (conj V (valid_scheme_ascii name V)).
+Qed.
+Print Assumptions C19_registry_rejects_malformed.
+Theorem C19_registry_orig_refuted : ~ registry_rejects_malformed register_orig.
+Proof. exact registry_rejects_malformed_orig_refuted. Qed.
+Print Assumptions C19_registry_orig_refuted.
+Theorem C19_registry_orig_kelvin :
+  register_orig sreg0 kelvin_name kelvin_lowered 1 = (ROk, sreg0 ++ [(kelvin_lowered, 1)])
+  /\ valid_scheme kelvin_name = false /\ forallb is_ascii kelvin_name = false.
+Proof. exact registry_kelvin_orig. Qed.
+Print Assumptions C19_registry_orig_kelvin.
+(* RegisterEncoder: succeeds iff the name is non-empty and absent; otherwise the
+   registry is unchanged *)
+Theorem C19_encoder_registry : forall (r : ereg) (name : bytes) (v : nat * bool),
+  let '(c, r') := register_enc r name v in
+  (c = ROk <-> name <> [] /\ lookup r name = None) /\
+  (name = [] -> c = RErrEmpty) /\
+  (name <> [] -> lookup r name <> None -> c = RErrDup) /\
+  (c <> ROk -> r' = r) /\
+  (c = ROk -> r' = r ++ [(name, v)]).
+Proof. exact register_enc_spec. Qed.
+Print Assumptions C19_encoder_registry.
+
+(* ---------------------------------------------------------------- wire *)
+(* the oracle the driver runs on the implementation's observations accepts the
+   model's observation on every well-formed case of every kind *)
+Theorem C19_wire : forall i, wf i = true -> spec i (model i) = true.
+Proof. exact spec_model. Qed.
+Print Assumptions C19_wire.
+
+(* ---------------------------------------------------------------- non-vacuity *)
+Definition ex_ok : purl := mkU false [] false [x63] false [x68] [] [x2f; x6f; x6b] [] [] true.      (* c://h/ok *)
+Definition ex_bad : purl := mkU false [] false [x63] false [x68] [] [x2f; x6e; x6f] [] [] false.    (* c://h/no, factory fails *)
+Definition ex_std : purl := mkU false s_stdout false [] false [] [] s_stdout [] [] true.            (* stdout *)
+Definition ex_reg : sreg := reg_all sreg0 [([x43], 1)].                                           (* RegisterSink("C") *)
+(* three sinks opened, the third path fails: both closable sinks closed once, stdout untouched *)
+Example C19_example_open_failure :
+  let o := open ex_reg [ex_ok; ex_std; ex_bad; ex_ok] 0 in
+  o_writers o = None /\ o_nerr o = 1 /\ o_sinks o = [mkS 0 KTest; mkS 1 KStd; mkS 2 KTest]
+  /\ o_evs o = [EClose 0; EClose 2] /\ o_calls o = [CFact 1; CFact 1; CFact 1].
+Proof. vm_compute. repeat split. Qed.
+Example C19_example_open_success :
+  let o := open ex_reg [ex_ok; ex_std] 0 in
+  o_writers o = Some [mkS 0 KTest; mkS 1 KStd] /\ o_evs o = []
+  /\ writes 2 [mkS 0 KTest; mkS 1 KStd] = [EWrite 0; EWrite 1; EWrite 0; EWrite 1].
+Proof. vm_compute. repeat split. Qed.
+(* Build: error output fails after the outputs opened: the output sink is closed *)
+Example C19_example_build :
+  let b := build ereg0 ex_reg (mkB true true s_json true [ex_ok] [ex_ok; ex_bad]) in
+  b_cls b = BSink /\ b_sinks b = [mkS 0 KTest; mkS 1 KTest] /\ b_evs b = [EClose 1; EClose 0].
+Proof. vm_compute. repeat split. Qed.
+Example C19_example_redirect :
+  redirect (mkL 3 [x70] WUser) 6 = (None, mkL 3 [x70] WUser)
+  /\ redirect (mkL 3 [x70] WUser) 2 = (Some (3%Z, [x70]), mkL 0 [] (WZap 2)).
+Proof. vm_compute. repeat split. Qed.
+Example C19_example_accepts : reg_accepts sreg0 [x43; x2b; x31] /\ ~ reg_accepts sreg0 [x46; x49; x4c; x45].
+Proof. split; [vm_compute; repeat split; discriminate|intros (_ & _ & H); vm_compute in H; discriminate]. Qed.
+(* a well-formed wire case: Open("C://h/ok", "stdout") after RegisterSink("C") *)
+Example C19_example_wf :
+  let u1 := SL [SZ 0; SB [x43; x3a; x2f; x2f; x68; x2f; x6f; x6b]; SZ 0; SB [x63]; SZ 0; SB [x68]; SB [x68]; SB [];
+                SB [x2f; x6f; x6b]; SB []; SB []; SZ 1; SB []] in
+  let i := SL [SZ 0; SL [SL [SB [x43]; SB [x63]]]; SL [u1]; SZ 2] in
+  wf i = true /\ model i = SL [SZ 0; SZ 0; SL [SL [SZ 1; SZ 1]]; SL [SL [SZ 0; SZ 2; SZ 0]]; SL [SL [SZ 0; SZ 2; SZ 1]]; SL [SZ 0; SZ 0]].
+Proof. vm_compute. split; reflexivity. Qed.
